@@ -482,17 +482,38 @@ class StmtMixin:
         # container / object cells written only at references that are stable across iterations (terms over entry
         # symbols only) can be havoc'd cell-wise instead of array-wise
         self.last_probe_cells = {}
+        self.last_probe_fresh = set()
         for f, refs in p.written_cells.items():
-            if all(r is not None and self.term_is_stable(r) for r in refs):
+            kinds = [("none" if r is None else ("stable" if self.term_is_stable(r) else ("fresh" if self.term_is_fresh(r, st) else "other")))
+                     for r in refs]
+            if all(k in ("stable", "fresh") for k in kinds):
                 uniq = []
-                for r in refs:
-                    if not any(r.eq(u) for u in uniq):
+                for r, k in zip(refs, kinds):
+                    if k == "stable" and not any(r.eq(u) for u in uniq):
                         uniq.append(r)
                 self.last_probe_cells[f] = uniq
+                if "fresh" in kinds:
+                    self.last_probe_fresh.add(f)
         if st.written_cells is not None:
             for f, refs in p.written_cells.items():
                 st.written_cells.setdefault(f, []).extend(refs if f in self.last_probe_cells else [None])
         return w
+
+    def term_is_fresh(self, t, st: State) -> bool:
+        """t denotes an object allocated inside the probed body: loop-start base + k (k >= allocations so far), or
+        an allocation base introduced during the probe (alloc!N [+ k])."""
+        t = z3.simplify(t)
+        d = z3.simplify(t - st.alloc_base)
+        if z3.is_int_value(d) and d.as_long() >= st.nalloc:
+            return True
+        core = t
+        if z3.is_add(t) and len(t.children()) == 2:
+            a, b = t.children()
+            if z3.is_int_value(a):
+                core = b
+            elif z3.is_int_value(b):
+                core = a
+        return z3.is_const(core) and core.decl().kind() == z3.Z3_OP_UNINTERPRETED and core.decl().name().startswith("alloc!")
 
     def term_is_stable(self, t) -> bool:
         seen = set()
@@ -519,14 +540,24 @@ class StmtMixin:
         if _os.environ.get("PYVC_DEBUG_PROBE"):
             print("PROBE", self.cur_key, getattr(body[0], "lineno", 0), sorted(fields), {k: len(v) for k, v in cells.items()})
 
+        fresh_fields = getattr(self, "last_probe_fresh", set())
+        bound = st.alloc_bound()
         for f in fields:
             if f in cells:
+                if f in fresh_fields:
+                    # objects allocated by earlier iterations may have any content; everything older is untouched
+                    before = st.harr(f)
+                    st.havoc_field(f)
+                    rq = fresh("rq", IntS)
+                    st.assume(z3.ForAll([rq], z3.Implies(rq < bound, z3.Select(st.heap[f], rq) == z3.Select(before, rq))))
                 for r in cells[f]:
                     st.hwrite(f, r, fresh("lc_" + f, field_sort(f).range()))
                     if f in ("$llen", "$dlen"):
                         st.assume(st.hread(f, r) >= 0)
             else:
                 st.havoc_field(f)
+        if fresh_fields:
+            st.bump_alloc()
         for n in assigned_names(body):
             if n in skip:
                 continue
